@@ -19,6 +19,7 @@ route <fb> <fac> <ops> <name> <method> <req> U <childout>           history, the
 route <fb> <fac> <ops> <name> <method> <req> S <childscript> <callerscript>   … a server-stream call
 conc  <fb> <fac> <reg0> <names> <sched>                  concurrent Gets, fine-grained schedule
 name  <default> <fields>                                 replaceEmptyNameField
+namechain <outer> <inner> <fields>                       two chained IfAbsentUnaryInterceptors
 lin   <fb> <fac> <reg0> <progs> <sched>                  concurrent Add/Remove/Has/Get, macro schedule
 rre   <fb> <fac> <callback> <depth> <ops>                registry history with a callback that re-enters the router
 nrecv <default> <transport> <m0> <wire>                  absentNameReplaceServerStream.RecvMsg over a transport
@@ -339,6 +340,9 @@ def handle? (toks : List String) : Option String :=
     let sched ← (splitList sched ",").mapM parseNat?
     let c := sched.foldl (lmacro cfg) (LConf.start reg0 0 0 progs)
     pure ("th=" ++ "|".intercalate (c.ths.map showLThread) ++ " " ++ showSt c.st)
+  | ["namechain", d1, d2, fields] => do
+    let fs ← parseMsg? fields
+    pure (showMsg (replaceEmptyName (unTilde d2) (replaceEmptyName (unTilde d1) fs)))
   | ["name", dflt, fields] => do
     let fs ← parseMsg? fields
     pure (showMsg (replaceEmptyName (unTilde dflt) fs))
